@@ -201,12 +201,40 @@ def run(chk):
         n_eval += 1
         if not np.all(np.isfinite(g)):
             oracle_bad.append(dict(op="grad w.r.t. sorted coordinates with a tie is not finite", kernel=kname, observed=[str(v) for v in g]))
+    # (4) where the true derivative with respect to a coordinate exists (kernels that are C^1 at zero lag), AD must return it, also when a
+    #     test point coincides with a training point: predictive mean w.r.t. the test coordinates, both solvers, vs finite differences
+    xtr = np.array([0.0, 0.8, 1.5, 2.7, 3.1])
+    ytr = rng.normal(size=5)
+    xte = np.array([0.8, 2.0, 2.7])          # two coincide with training inputs
+    th = dict(scale=1.3, sigma=0.9, noise=0.3, mean=0.0)
+    for kname, mk, solvers in (("qs.Matern32", lambda: qs.Matern32(jnp.asarray(th["scale"]), jnp.asarray(th["sigma"])), (DirectSolver, QuasisepSolver)),
+                               ("kernels.Matern32", lambda: th["sigma"] ** 2 * kernels.Matern32(jnp.asarray(th["scale"])), (DirectSolver,))):
+        for scls in solvers:
+            def pm(xx, mk=mk, scls=scls):
+                return GaussianProcess(mk(), jnp.asarray(xtr), diag=jnp.asarray(th["noise"]), solver=scls).predict(jnp.asarray(ytr), xx)
+            J1 = np.asarray(jax.jacfwd(pm)(jnp.asarray(xte)))
+            g1 = np.asarray(jax.grad(lambda xx: jnp.sum(pm(xx)))(jnp.asarray(xte)))
+            want = np.zeros((3, 3))
+            for j in range(3):
+                def at(e, j=j):
+                    xx = xte.copy()
+                    xx[j] += e
+                    return np_pred(KF["matern32"], xtr, ytr, xx, th)[0]
+                hh = 1e-6
+                want[:, j] = (at(hh) - at(-hh)) / (2 * hh)
+            n_eval += 2
+            for mode, got, wnt in (("jacfwd", J1, want), ("grad of the sum", g1, want.sum(axis=0))):
+                if not np.all(np.isfinite(got)) or float(np.max(np.abs(got - wnt))) > 1e-4 * max(1.0, float(np.max(np.abs(wnt)))):
+                    oracle_bad.append(dict(op=f"{mode} of the predictive mean w.r.t. test coordinates (two of them equal to training inputs)",
+                                           kernel=kname, solver=scls.__name__, X=xtr.tolist(), X_test=xte.tolist(), y=ytr.tolist(),
+                                           expected=np.asarray(wnt).tolist(), observed=np.asarray(got).tolist()))
     chk.cov["evaluations"] = n_eval
     chk.cov["distinct_nontrivial"] = len(distinct)
     chk.cov["rule"] = ("(1) dual-number pipeline model vs jax.jvp along a random direction in (kernel parameters, per-point noise, y, mean) for two "
                        "quasiseparable expressions and sizes with coincident points; (2) jax.grad and jax.jacfwd of log_probability and of the predictive mean / "
                        "variance w.r.t. scale, sigma, quality, noise, mean and y, dense and quasiseparable solvers, vs Richardson finite differences of a numpy oracle; "
-                       "(3) finiteness of coordinate gradients at coincident points for L1 / L2 metrics in 1-3 dimensions and for quasiseparable kernels")
+                       "(3) finiteness of coordinate gradients at coincident points for L1 / L2 metrics in 1-3 dimensions and for quasiseparable kernels; "
+                       "(4) derivative of the predictive mean w.r.t. test coordinates, incl. test points equal to training points, for C^1 kernels vs finite differences")
     chk.cov["max_model_impl_deviation"] = maxdev
     chk.cov["samples"] = [e[0] for e in expect[:2]]
     chk.cov["correspondence_disagreements"] = len(corr_bad)
